@@ -143,6 +143,10 @@ def check(ctx, case):
 
 
 def finalize(ctx):
+    if ctx.tier == "thorough" and ctx.shard == 0:  # ambient contracts while the repository's own pinned tests run
+        from vf import ambient
+
+        ambient.run_tests(ctx, "C06", ["tests/inference/test_peak_finding.py"], ["find_local_peaks_rough"])
     ctx.require("rough_calls", 10)
     ctx.require("refined_points", 10)
     ctx.require("solo_calls", 10)
